@@ -85,9 +85,24 @@ Print Assumptions C11_verify_exact.
 
 (* validateTokenTiming, exactly *)
 Theorem C11_times_valid_exact :
-  forall (now cfg : Z) (c : claims), timing_ok now cfg c = true <-> times_valid now cfg c.
+  forall (now ma : Z) (c : claims), timing_ok now ma c = true <-> times_valid now ma c.
 Proof. exact timing_ok_spec. Qed.
 Print Assumptions C11_times_valid_exact.
+
+(* where the maximum age the time validation uses comes from: a positive
+   TokenMaxAge wins; otherwise SEC_TOKEN_MAX_AGE, read as a number of seconds
+   (ParseDuration of the value followed by "s"); otherwise the default *)
+Theorem C11_max_age_source :
+  forall (e : env),
+    (0 < e_max_age e -> resolved_max_age e = e_max_age e) /\
+    (e_max_age e <= 0 -> forall ns,
+       e_env_max_age e <> [] -> e_parse_dur e (e_env_max_age e ++ [x73]) = Some ns ->
+       resolved_max_age e = Z.quot ns 1000000000) /\
+    (e_max_age e <= 0 ->
+       (e_env_max_age e = [] \/ e_parse_dur e (e_env_max_age e ++ [x73]) = None) ->
+       resolved_max_age e = DefaultTokenMaxAge).
+Proof. exact max_age_source. Qed.
+Print Assumptions C11_max_age_source.
 
 (* Under the ideal (free-term) instance the accepted MAC determines the signing key
    and the token: the peer's proof could only be built from that very signature. *)
@@ -139,7 +154,7 @@ Module Ex.
   Definition e : env :=
     {| e_cr := ideal; e_json := json; e_pool := None;
        e_named := fun k => if bytes_eqb k kid then Some keyfile else None;
-       e_max_age := 0; e_trust := [] |}.
+       e_max_age := 0; e_env_max_age := []; e_parse_dur := fun _ => None; e_trust := [] |}.
   Definition key : bytes := simple_scramble keyfile.
   Definition sig : bytes := i_sign key tok.
   Definition K : bytes := i_kdf sig tok.
